@@ -2,6 +2,7 @@ package rules
 
 import (
 	"golang.org/x/tools/go/ssa"
+	"strings"
 
 	"verif/checker/internal/ir"
 )
@@ -53,6 +54,7 @@ func checkC15(c *Ctx) {
 	c.RuleB("C3.term", reach, chain, map[string]bool{"DEPENDENCY": true})
 	c.ruleOrder()
 	c.ruleShortWrite("C4.shortwrite")
+	c.ruleShortRead("C6.shortread", inScope)
 	c.R.Floor("C1.dropped", 15)
 	c.R.Floor("C2.surface", 15)
 	c.R.Floor("C.order", 3)
@@ -67,6 +69,44 @@ func (c *Ctx) ruleOrder() {
 			callee := ir.Callee(call)
 			return callee != nil && c.reachesSigner(callee)
 		}, c.receiverMutation(fn), "mutation of the image object")
+	}
+	// (*PECOFFBinary).Hash: whatever it keeps on the image object is kept only after the image was read completely
+	if fn := c.Fn("C.order", "authenticode.(*PECOFFBinary).Hash"); fn != nil {
+		var rd *ssa.Call
+		instrsOf(fn, func(i ssa.Instruction) {
+			if call, ok := i.(*ssa.Call); ok {
+				switch ir.CallID(call) {
+				case "io.Copy", "io.ReadAll", "bytes.Buffer.ReadFrom", "io.CopyN", "io.CopyBuffer":
+					rd = call
+				}
+			}
+		})
+		isMut := c.receiverMutation(fn)
+		var muts []ssa.Instruction
+		instrsOf(fn, func(i ssa.Instruction) {
+			if isMut(i) {
+				muts = append(muts, i)
+			}
+			if mu, ok := i.(*ssa.MapUpdate); ok && paramRoot(loadAddr(ir.RootOf(mu.Map)), fn) == fn.Params[0] {
+				muts = append(muts, i)
+			}
+		})
+		switch {
+		case len(muts) == 0:
+			c.R.Okf("C.order", name(fn), "state-after-read", c.Pos(fn.Pos()), "hashing keeps nothing on the image object")
+		case rd == nil:
+			c.R.Infof("C.order", name(fn), "state-after-read", c.Pos(fn.Pos()), "not decided for this shape: the image object is updated and the read of the image is not identified in "+name(fn))
+		default:
+			e, kept := errValue(rd)
+			ok, where := true, ""
+			for _, m := range muts {
+				if !kept || e == nil || !successDominates(fn, e, m.Block()) {
+					ok, where = false, c.IPos(m)
+				}
+			}
+			c.R.Check(ok, "C.order", name(fn), "state-after-read", c.IPos(rd), "state kept on the image object is stored only behind the success edge of reading the image",
+				"the image object is updated at "+where+" before (or regardless of whether) the image was read without error: after a failed read a later call finds the half-fed state")
+		}
 	}
 	// (*Efivarfs).WriteSignedUpdate: WriteVar behind SignEFIVariable's success
 	if fn := c.Fn("C.order", "efivarfs.(*Efivarfs).WriteSignedUpdate"); fn != nil {
@@ -280,4 +320,43 @@ func (c *Ctx) receiverMutation(fn *ssa.Function) func(i ssa.Instruction) bool {
 		}
 		return false
 	}
+}
+
+// ruleShortRead (C6.shortread): io.Reader.Read may return fewer bytes than
+// asked for together with a nil error. A direct Read on a caller-supplied
+// reader or file whose count is thrown away treats a short read as a full one:
+// the rest of the buffer keeps its zero bytes and the value is reported as
+// read. (io.ReadFull, io.ReadAll, binary.Read and io.Copy loop themselves.)
+func (c *Ctx) ruleShortRead(rule string, in func(*ssa.Function) bool) int {
+	n := 0
+	counts := map[string]int{}
+	for _, fn := range c.P.LibFunctions() {
+		if in != nil && !in(fn) {
+			continue
+		}
+		fn := fn
+		instrsOf(fn, func(i ssa.Instruction) {
+			call, ok := i.(ssa.CallInstruction)
+			if !ok || !call.Common().IsInvoke() || call.Common().Method.Name() != "Read" || len(call.Common().Args) != 1 || !isByteSlice(call.Common().Args[0].Type()) {
+				return
+			}
+			n++
+			key := ordinalKey(counts, name(fn)+":Read")
+			construct := strings.TrimPrefix(key, name(fn)+":")
+			used := false
+			if v, isV := call.(*ssa.Call); isV && v.Referrers() != nil {
+				for _, r := range *v.Referrers() {
+					if ex, ok := r.(*ssa.Extract); ok && ex.Index == 0 && ex.Referrers() != nil && len(*ex.Referrers()) > 0 {
+						used = true
+					}
+				}
+			}
+			c.R.Check(used, rule, name(fn), construct, c.IPos(i), "the byte count of a direct Read on a dependency is looked at",
+				"the count returned by Read is discarded: a short read with a nil error leaves the rest of the buffer zero and is taken for the whole value")
+		})
+	}
+	if n == 0 {
+		c.R.Okf(rule, "-", "scan", "-", "no direct Read on an interface value in the operations' call cone (reads go through io.ReadFull / binary.Read / io.ReadAll / io.Copy)")
+	}
+	return n
 }
